@@ -257,14 +257,15 @@ def _lambda_table(prog: Program, name: str) -> Dict[Tuple[str, str], ast.Lambda]
         if not isinstance(v, ast.Dict):
             raise AnalysisError(f"statistics.{name}[{unparse(k)}] is not a dict")
         for k2, v2 in zip(v.keys, v.values):
-            if not isinstance(v2, ast.Lambda):
-                raise AnalysisError(f"statistics.{name}[{unparse(k)}][{unparse(k2)}] is not a lambda")
+            if not isinstance(v2, (ast.Lambda, ast.Name, ast.Attribute)):
+                raise AnalysisError(f"statistics.{name}[{unparse(k)}][{unparse(k2)}] is not a function value")
             out[(k.value, k2.value)] = v2
     return out
 
 
 def check_estimators(ck: Checker, prog: Program, rule: str):
-    x = sp.Symbol("x", positive=True)
+    # x is any real sample: a transform that treats zeros / negative samples specially (np.where(x > 0, ...)) is not the stated one
+    x = sp.Symbol("x", real=True)
     want_pre = {("normal", "mean"): x, ("normal", "std"): x, ("lognormal", "mean"): sp.log(x), ("lognormal", "std"): sp.log(x)}
     want_post = {("normal", "mean"): x, ("normal", "std"): x, ("lognormal", "mean"): sp.exp(x), ("lognormal", "std"): x}
     stat_mod = prog.module("statistics")
@@ -276,10 +277,21 @@ def check_estimators(ck: Checker, prog: Program, rule: str):
             ck.violation(rule, f"statistics.{tname}", "keys", f"table keys {sorted(tab)} != {sorted(want)}", loc="hvsrpy/statistics.py")
             continue
         for k, lam in tab.items():
-            if len(lam.args.args) != 1:
-                raise AnalysisError(f"statistics.{tname}{k}: lambda arity")
-            T = Translator(env={lam.args.args[0].arg: x})
-            got = T.tr(lam.body)
+            if isinstance(lam, ast.Lambda):
+                if len(lam.args.args) != 1:
+                    raise AnalysisError(f"statistics.{tname}{k}: lambda arity")
+                T = Translator(env={lam.args.args[0].arg: x})
+                got = T.tr(lam.body)
+            else:
+                # a named function (np.log, a helper of the module): what it gives for x, helper bodies read in place
+                from ..pathtable import PathTable as _PT, tidy_items as _tidy
+                TT = _PT(prog, stat_mod, unroll=True)._T({"x__": x})
+                got = TT.tr(ast.Call(func=lam, args=[ast.Name(id="x__", ctx=ast.Load())], keywords=[]))
+                got = _tidy(got)
+                if isinstance(got, sp.Piecewise) or (isinstance(lam, ast.Name) and getattr(getattr(got, "func", None), "__name__", "") == lam.id):
+                    raise AnalysisError(f"statistics.{tname}{k}: the value of `{unparse(lam)}` for x could not be written out")
+                got = got.replace(lambda e: getattr(getattr(e, "func", None), "__name__", "") in ("asarray", "array", "asanyarray") and len(e.args) >= 1,
+                                  lambda e: e.args[0])
             if equal(got, want[k]):
                 ck.ok(rule, f"statistics.{tname}", f"{k[0]}/{k[1]}: {unparse(lam)}", detail=f"= {want[k]}")
             else:
@@ -297,7 +309,7 @@ def check_estimators(ck: Checker, prog: Program, rule: str):
     leaves = PathTable(prog, fac.module, unroll=True).leaves(fac.node.body)
     dm = prog.registry("constants", "DISTRIBUTION_MAP")
     worlds = [(k, v.value) for k, v in dm.items() if isinstance(v, ast.Constant)] + [("<other>", None)]
-    X = sp.Symbol("x", positive=True)
+    X = sp.Symbol("x", real=True)
     problems = []
     for key, canon in worlds:
         for calc in ("mean", "std"):
